@@ -14,7 +14,7 @@ import re
 import threading
 
 import glom
-from glom import Coalesce, Fill, Iter, S, Spec, T, Fold
+from glom import Coalesce, Fill, Invoke, Iter, S, Spec, T, Fold
 from glom.core import MODE, Path, TargetRegistry, _DEFAULT_SCOPE
 from glom.grouping import Group, ACC_TREE
 
@@ -41,11 +41,26 @@ def h2(o, name):
     return _bump(getattr(o, name), 20)
 
 
+def h3(o, name):
+    return _bump(getattr(o, name), 30)
+
+
 def itvals(o):
     return iter(list(vars(o).values()))
 
 
-REGS = {'Aget1': dict(get=h1), 'Aget2': dict(get=h2), 'Aiter': dict(iterate=itvals)}
+def itrev(o):
+    return iter(list(vars(o).values())[::-1])
+
+
+def kwfn(**kw):
+    """the function of the model's Invoke node"""
+    return dict(kw)
+
+
+# every registration names exactly one op; the ...x ones are exact=True
+REGS = {'Aget1': dict(get=h1), 'Aget2': dict(get=h2), 'Aiter': dict(iterate=itvals),
+        'Aget3x': dict(get=h3, exact=True), 'Aiterx': dict(iterate=itrev, exact=True)}
 HANDLER_NAMES = {}
 
 
@@ -53,7 +68,7 @@ def handler_name(h):
     import operator
     from glom.core import _get_sequence_item, _ObjStyleKeys
     table = {id(operator.getitem): 'getitem', id(_get_sequence_item): 'seqitem', id(getattr): 'getattr',
-             id(h1): 'h1', id(h2): 'h2', id(itvals): 'itvals', id(iter): 'iter',
+             id(h1): 'h1', id(h2): 'h2', id(h3): 'h3', id(itvals): 'itvals', id(itrev): 'itrev', id(iter): 'iter',
              id(dict.keys): 'dictkeys', id(_ObjStyleKeys.get_keys): 'objkeys'}
     if h is False:
         return 'NONE'
@@ -249,9 +264,15 @@ class Builder:
             return [sub] if n['sp'] == 'list' else Iter(sub).all()
         if op == 'coal':
             subs = [self.spec(c, at + (i,)) for i, c in enumerate(n['c'], 1)]
+            if n['d']['has'] and n['d']['s']:
+                return Coalesce(*subs, default=self.spec(n['d']['s'][0], at + (len(subs) + 1,)))
             if n['d']['has']:
                 return Coalesce(*subs, default=build_value(n['d']['v']))
             return Coalesce(*subs)
+        if op == 'arglist':        # a list ARGUMENT (argument mode rebuilds it and evaluates the sub-specs)
+            return [self.spec(c, at + (i,)) for i, c in enumerate(n['c'], 1)]
+        if op == 'invoke':         # star-kwargs first, then constants
+            return Invoke(kwfn).star(kwargs=self.spec(n['c'], at + (1,))).constants(**{n['k']: build_value(n['v'])})
         if op == 'acc':
             if n['kind'] == 'group':
                 return Group([Probe(self.ctx, at + (1,), n['f'])])
